@@ -43,12 +43,16 @@ var policyTexts = []string{
 }
 
 var policies []*cedar.Policy
+var policiesErr error
 
-func init() {
+func initPolicies() {
+	policies = nil
 	for _, s := range policyTexts {
 		var p cedar.Policy
 		if err := p.UnmarshalCedar([]byte(s)); err != nil {
-			panic(err)
+			policiesErr = fmt.Errorf("%s: %w", s, err)
+			p = cedar.Policy{}
+			_ = p.UnmarshalCedar([]byte("permit(principal,action,resource);"))
 		}
 		policies = append(policies, &p)
 	}
@@ -478,6 +482,13 @@ func Check() *core.Check {
 			"a case is non-trivial if the template has at least one variable and produced at least one callback",
 		Assumptions: []string{"cedar.Authorize on the concrete request is the reference (its conformance is C01/C02)", "Ignore() parts are judged by C06's weaker oracle, not by brute-force equality"},
 		Families: func(tier string) []*core.Family {
+			initPolicies()
+			if policiesErr != nil {
+				e := policiesErr
+				return []*core.Family{{Name: "setup", Desc: "harness policies parse", N: 1, Run: func(t *core.T, i int64) {
+					t.Fail("harness-policy-does-not-parse", e.Error(), "parses", e.Error())
+				}}}
+			}
 			if tier == "thorough" {
 				return []*core.Family{errorFamily(), mainFamily(3, 2), deepLists()}
 			}
